@@ -102,13 +102,12 @@ Section Walk.
 
   Theorem full_table_keeps : Forall entry_keeps full_table.
   Proof.
-    unfold full_table. repeat (apply Forall_app; split).
-    - exact core_keeps.
-    - exact bvec_keeps.
-    - exact ivec_keeps.
-    - exact fvec_keeps.
-    - exact list_keeps.
-    - exact io_keeps.
-    - exact graph_keeps.
+    unfold full_table.
+    apply Forall_app; split; [exact core_keeps|].
+    apply Forall_app; split; [exact bvec_keeps|].
+    apply Forall_app; split; [exact ivec_keeps|].
+    apply Forall_app; split; [exact fvec_keeps|].
+    apply Forall_app; split; [exact list_keeps|].
+    apply Forall_app; split; [exact io_keeps|exact graph_keeps].
   Qed.
 End Walk.
